@@ -318,6 +318,8 @@ class ProgGen(object):
             return self.default_value(t, scope, d)
         if c == "arith":
             p = "si" if t == SI else "bi"
+            if t == SI and "bits" in self.feat and r.random() < 0.3:      # opt-in feature: /\, \/, xor on SingleInteger
+                return prim("si." + r.choice(["and", "or", "xor"]), self.expr(t, scope, d - 1), self.expr(t, scope, d - 1))
             op = r.choice(["add", "sub", "mul", "add", "sub", "neg", "quo", "rem", "mod"])
             if op == "neg":
                 return prim(p + ".neg", self.expr(t, scope, d - 1))
@@ -750,6 +752,8 @@ class ProgGen(object):
                     fi = r.choice(eff)
             if not self.here(self.funs[fi]):
                 return self.stmt(scope, 0)
+            if self.in_gen is not None and isinstance(self.funs[fi]["rt"], list) and self.funs[fi]["rt"][0] == "tup":
+                return self.stmt(scope, 0)      # known finding F15: several values discarded inside a generator
             return self.call(fi, scope, d)
         k, x = c
         vt = allv[x][0]
@@ -1338,7 +1342,7 @@ def generate(seed, n, features=None, emph=(), extras=True):
     for i in range(n):
         g = ProgGen(seed * 100003 + i, features=features, emph=emph)
         if extras and features is None and i % 3 == 2:
-            g.feat |= {"tup", "coll", "filt", "adt", "kwd", "strop", "where", "pfor"}
+            g.feat |= {"tup", "coll", "filt", "adt", "kwd", "strop", "where", "pfor", "bits"}
             if "try" in g.feat and i % 2:
                 g.enable_payload()
         out.append(g.program("g%d_%d" % (seed, i)))
